@@ -67,6 +67,8 @@ type Contract struct {
 	Tags     map[string][]string
 	File     string
 	Line     int
+	AsmFile  string               // assembly source of a body-less function (verified by asm.go)
+	Labels   map[string]*LoopSpec // invariants, frames and hints attached to assembly labels
 }
 
 type Macro struct {
@@ -97,7 +99,7 @@ type ContractSet struct {
 
 var clauseKW = map[string]bool{"requires": true, "ensures": true, "modifies": true, "panics": true, "onpanic": true,
 	"loop": true, "hint": true, "status": true, "split": true, "inline": true, "pure": true,
-	"induction": true, "use": true, "axiom": true, "same": true, "tags": true, "ghost": true, "nomerge": true}
+	"induction": true, "use": true, "axiom": true, "same": true, "tags": true, "ghost": true, "nomerge": true, "asm": true, "label": true}
 
 var hdrFunc = regexp.MustCompile(`^func\s+(?:\(\s*\w*\s*\*?\s*([\w.]+)\s*\)\s*)?([\w.$]+)`)
 var labelRe = regexp.MustCompile(`^\[([^\]]*)\]`)
@@ -355,6 +357,52 @@ func (cs *ContractSet) loadFile(path string) error {
 					return fmt.Errorf("%s: %v", where, err)
 				}
 				cur.Modifies = append(cur.Modifies, es...)
+			case "asm":
+				cur.AsmFile = strings.TrimSpace(rest)
+			case "label":
+				fs := strings.Fields(rest)
+				if len(fs) < 2 {
+					return fmt.Errorf("%s: label L invariant|modifies|hint ...", where)
+				}
+				if cur.Labels == nil {
+					cur.Labels = map[string]*LoopSpec{}
+				}
+				ls := cur.Labels[fs[0]]
+				if ls == nil {
+					ls = &LoopSpec{}
+					cur.Labels[fs[0]] = ls
+				}
+				body := strings.TrimSpace(rest[len(fs[0]):])
+				kw := firstWordBracket(body)
+				body = strings.TrimSpace(body[len(kw):])
+				switch kw {
+				case "invariant":
+					c, err := mk("invariant", parseLabel(body))
+					if err != nil {
+						return err
+					}
+					ls.Invs = append(ls.Invs, c)
+				case "modifies":
+					ls.HasMod = true
+					es, err := parseExprList(body)
+					if err != nil {
+						return fmt.Errorf("%s: %v", where, err)
+					}
+					ls.Modifies = append(ls.Modifies, es...)
+				case "hint":
+					body = parseLabel(body)
+					wh := "back"
+					if label == "head" || label == "back" {
+						wh = label
+					}
+					c, err := mk("hint", body)
+					if err != nil {
+						return err
+					}
+					ls.Hints = append(ls.Hints, &Hint{Where: wh, Clause: *c})
+				default:
+					return fmt.Errorf("%s: unknown label clause %q", where, kw)
+				}
 			case "loop":
 				fs := strings.Fields(rest)
 				if len(fs) < 2 {
